@@ -103,9 +103,32 @@ type state struct {
 	sb  align.SeqBag    // always set
 	al  align.Alignment // set when the container is an alignment
 	ops []string
+	// containers left behind by Clone / CloneSeqBag / SubAlign / Unalign with the content they must keep
+	kept []keptContainer
 	// set when an empty alignment may remember a previous length (FilterLength,
 	// Deduplicate use the sequence-set Clear): under-documented corner, lenient
 	staleLen bool
+}
+
+type keptContainer struct {
+	op   string
+	sb   align.SeqBag
+	rows gen.Rows
+}
+
+// leaveBehind remembers the current container before the history moves on to a copy of it.
+func (s *state) leaveBehind(op string) {
+	s.kept = append(s.kept, keptContainer{op, s.sb, s.m.snapshot()})
+}
+
+// checkKept: a copy owns its data - whatever happened to it, the containers left behind are unchanged.
+func (s *state) checkKept() {
+	for _, k := range s.kept {
+		if got := safeSnap(k.sb); !h.EqRows(got, k.rows) {
+			s.c.Failf(k.op+":copy-shares-data", "after ops %v\nthe container left behind by %s changed while its copy was being modified\nexpected=%s\ngot     =%s", s.ops, k.op, h.Show(k.rows), h.Show(got))
+			return
+		}
+	}
 }
 
 func (s *state) fail(sig, format string, a ...interface{}) {
@@ -1080,6 +1103,7 @@ func opClone(s *state) (string, bool) {
 		s.fail(label+":unexpected-error", "%v", err)
 		return label, false
 	}
+	s.leaveBehind(label)
 	s.setContainer(c)
 	return label, true
 }
@@ -1214,11 +1238,16 @@ func opUnalign(s *state) (string, bool) {
 		return "", true
 	}
 	s.ops = append(s.ops, "Unalign")
+	before := s.m.snapshot()
 	u := s.sb.Unalign()
 	for i := range s.m.rows {
 		s.m.rows[i].seq = strings.ReplaceAll(s.m.rows[i].seq, "-", "")
 	}
 	s.m.policy = align.IGNORE_NONE
+	s.leaveBehind("Unalign")
+	for i := range s.kept[len(s.kept)-1].rows { // the rows left behind keep their gaps
+		s.kept[len(s.kept)-1].rows[i].Seq = before[i].Seq
+	}
 	s.setContainer(u)
 	return "Unalign", true
 }
@@ -1237,6 +1266,7 @@ func opSubAlign(s *state) (string, bool) {
 		s.fail("SubAlign:unexpected-error", "%v", err)
 		return "SubAlign", false
 	}
+	s.leaveBehind("SubAlign")
 	for i := range m.rows {
 		m.rows[i].seq = m.rows[i].seq[st : st+ln]
 	}
@@ -1340,6 +1370,9 @@ func runHistory(c *mon.Case, forced []opFn) {
 			break
 		}
 		queriesAfter++
+	}
+	if !c.Failed() {
+		s.checkKept()
 	}
 	c.Input(map[string]interface{}{"ops": s.ops})
 	c.Note("final rows: %s", h.Show(m.snapshot()))
@@ -1459,6 +1492,11 @@ func main() {
 		{Name: "rename-then-sort", Quick: 6000, Thorough: 200000, Run: func(c *mon.Case) {
 			ren := []opFn{opRename, opRenameRegexp, opAppendId, opCleanNames, opTrimNames}
 			runHistory(c, []opFn{ren[c.R.Intn(len(ren))], opSort, opSetChar})
+		}},
+		{Name: "copy-then-edit", Quick: 6000, Thorough: 200000, Run: func(c *mon.Case) {
+			cp := []opFn{opClone, opClone, opSubAlign, opUnalign}
+			ed := []opFn{opSetChar, opCase, opReplace, opSetChar}
+			runHistory(c, []opFn{cp[c.R.Intn(len(cp))], ed[c.R.Intn(len(ed))], ed[c.R.Intn(len(ed))]})
 		}},
 		{Name: "filter-concat", Quick: 6000, Thorough: 200000, Run: func(c *mon.Case) {
 			f := []opFn{opFilterLength, opConcat, opAppend, opAdd, opTrimSeqs, opTranslate}
